@@ -29,6 +29,22 @@ def carriers(s, os_):
     return out
 
 
+def pair_carriers(s1, s2, os_):
+    """two stored strings in one header: the places a path can come from are not independent (an in-header name with a directory
+    part next to a path header; a file name header after / before a path header; a directory entry named twice)"""
+    out = []
+    if len(s1) <= 200:
+        out.append(arc.Member(level=1, method=b"-lh0-", name=s1, payload=b"x", os=os_, exts=[(arc.X_PATH, s2)] if s2 else []).bytes())
+        out.append(arc.Member(level=1, method=b"-lh0-", name=s1, payload=b"x", os=os_, exts=([(arc.X_PATH, s2)] if s2 else []) + [arc.x_name(b"f")]).bytes())
+        out.append(arc.Member(level=1, method=b"-lh0-", name=s1, payload=b"x", os=os_, exts=[(arc.X_FILENAME, s2)] if s2 else []).bytes())
+        out.append(arc.Member(level=1, method=b"-lhd-", name=s1, payload=b"", os=os_, exts=[(arc.X_PATH, s2)] if s2 else []).bytes())
+    if s1 and s2:
+        out.append(arc.Member(level=2, method=b"-lh0-", payload=b"x", os=os_, exts=[(arc.X_PATH, s1), (arc.X_FILENAME, s2)]).bytes())
+        out.append(arc.Member(level=2, method=b"-lh0-", payload=b"x", os=os_, exts=[(arc.X_FILENAME, s2), (arc.X_PATH, s1)]).bytes())
+        out.append(arc.Member(level=3, method=b"-lh0-", payload=b"x", os=os_, exts=[(arc.X_PATH, s1), (arc.X_PATH, s2), arc.x_name(b"f")]).bytes())
+    return out
+
+
 def run(tier, seed, ev):
     rng = random.Random(seed)
     sc = V.scratch("c11")
@@ -44,6 +60,17 @@ def run(tier, seed, ev):
             s = bytes(t)
             nstr += 1
             cases += carriers(s, [0, ord("U"), ord("M")][nstr % 3])
+    small = [bytes(t) for L in range(0, 3 if tier == "quick" else 4) for t in itertools.product([ord("."), ord("/"), ord("\\"), ord("a")], repeat=L)]
+    npairs = 0
+    for s1 in small:
+        for s2 in small:
+            npairs += 1
+            cases += pair_carriers(s1, s2, [0, ord("U"), ord("M")][npairs % 3])
+    three = [bytes(t) for t in itertools.product([ord("."), ord("/"), ord("\\"), ord("a")], repeat=3)] + [b"a/../..", b"..\\..\\x", b"a\\b/c", b"./../up"]
+    for _ in range(400 if tier == "quick" else 0):
+        npairs += 1
+        cases += pair_carriers(rng.choice(three + small), rng.choice(three + small), rng.choice([0, ord("U"), ord("M")]))
+    ev.set("string_pairs", npairs)
     ev.set("strings_exhaustive", nstr)
     ev.set("exhaustive", True)
     for i in range(1500 if tier == "quick" else 60000):
